@@ -413,6 +413,8 @@ class Polynomial:
 
     def __call__(self, x, degree=1, raw=False):
         if not self.params_set:
+            if not raw and degree >= len(np.unique(x)):
+                raise ValueError("'degree' must be less than the number of unique points")
             self.degree = degree
             self.raw = raw
             self.params_set = True
